@@ -320,7 +320,7 @@ pub fn run(tier: Tier, seed: u64, findings: &Findings) -> i32 {
     }
     report.extra.insert("operator_texts".into(), json!(texts.len()));
     report.merge(engine::run_explicit(&check, &cfg, explicit, 2, 16, findings));
-    let cases = tier.pick(6000, 300_000);
+    let cases = tier.pick(20_000, 300_000);
     report.merge(engine::run_generated(&check, &cfg, cases, 8, 16, findings, 0));
     engine::finish(
         Finish {
